@@ -67,7 +67,7 @@ def _zero(kind):
 
 
 def _length_of(ev, x, lineno):
-    if isinstance(x, (Arr, ColView, Comp, Pit)):
+    if isinstance(x, (Arr, ColView, Comp, Pit, PitComp)):
         return x.n
     if isinstance(x, (list, tuple, dict, str, set)):
         return len(x)
@@ -140,15 +140,23 @@ def call(ev, name, args, kwargs, lineno, env):
             return _fill(a.n, args[1], kind)
         return _empty(a.n, kind)
     if name in ("zeros", "ones", "empty", "full"):
-        shape = args[0]
+        shape = args[0] if args else kwargs.get("shape")
         dt = kwargs.get("dtype", args[2] if name == "full" and len(args) > 2 else
                         (args[1] if name != "full" and len(args) > 1 else None))
         kind = _as_kind(dt) if dt is not None else "f"
+        if "shape" in kwargs and not args:
+            shape = kwargs["shape"]
         if isinstance(shape, (tuple, list)):
             if len(shape) == 1:
                 shape = shape[0]
+            elif len(shape) == 2 and name in ("zeros", "ones", "full", "empty"):
+                fill = {"zeros": 0, "ones": 1, "full": args[1] if len(args) > 1 else 0, "empty": 0}[name]
+                if name == "empty":
+                    u = _empty(shape[0], "f")
+                    return Pit(shape[0], lambda i, c, _u=u: _u.f(arith("+", arith("*", i, 1000), c)), shape[1])
+                return Pit(shape[0], lambda i, c, _v=fill: _v, shape[1])
             else:
-                raise Unsupported("np.%s with 2-D shape (line %d)" % (name, lineno))
+                raise Unsupported("np.%s with %d-D shape (line %d)" % (name, len(shape), lineno))
         if name == "zeros":
             return _fill(shape, _zero(kind), kind)
         if name == "ones":
@@ -526,6 +534,18 @@ def builtin(ev, name, args, kwargs, lineno, env):
         return str(args[0]) if isinstance(args[0], (str, int)) else "<str>"
     if name == "deepcopy":
         return deepcopy(ev, args[0])
+    if name == "super":
+        e = env
+        fref = None
+        while e is not None and fref is None:
+            fref = getattr(e, "fref", None)
+            e = e.parent
+        if fref is None or fref.cls is None:
+            raise Unsupported("super() outside a method")
+        cur = env.get("cls") if "cls" in _all_vars(env) else None
+        if not isinstance(cur, E.S.ClassRef):
+            raise Unsupported("super() without a class receiver")
+        return SuperProxy(cur, fref.cls)
     if name == "globals":
         return GlobalsDict(env.module if env is not None else None, ev)
     if name == "round":
@@ -553,6 +573,36 @@ def builtin(ev, name, args, kwargs, lineno, env):
     if name == "callable":
         return isinstance(args[0], (E.Closure, E.BoundMethod)) or hasattr(args[0], "call")
     raise Unsupported("builtin %s (line %d)" % (name, lineno))
+
+
+def _all_vars(env):
+    out = set()
+    e = env
+    while e is not None:
+        out |= set(e.vars)
+        e = e.parent
+    return out
+
+
+class SuperProxy:
+    """super() inside a classmethod: attribute lookup continues after the defining class in the
+    method resolution order of the receiver class"""
+
+    def __init__(self, cls_value, defining):
+        self.cls_value = cls_value
+        self.defining = defining
+
+    def getattr_(self, ev, attr, lineno):
+        from .classes import mro
+        chain = mro(self.cls_value)
+        names = [c.name for c in chain]
+        if self.defining not in names:
+            raise Unsupported("super(): %s not in the MRO of %s" % (self.defining, self.cls_value.name))
+        for c in chain[names.index(self.defining) + 1:]:
+            qn = "%s.%s" % (c.name, attr)
+            if qn in c.module.functions:
+                return E.ClassMethodRef(self.cls_value, c.module.functions[qn])
+        raise E._Raise(E.ExcVal("AttributeError", (attr,)))
 
 
 def _isinstance(x, t):
